@@ -518,12 +518,19 @@ impl AExec {
                 }
                 Ok(Out::Walk(items))
             }
-            Op::WalkAfter { p, muts } => {
+            Op::WalkAfter { p, muts, after } => {
                 let mut st = path(p)?.walk_dir().await.map_err(v)?;
+                let mut items = vec![];
+                for _ in 0..*after {
+                    match st.next().await {
+                        Some(Ok(c)) => items.push(Ok(c.as_str().to_string())),
+                        Some(Err(e)) => items.push(Err(err_info(&e))),
+                        None => break,
+                    }
+                }
                 for m in muts {
                     let _ = self.exec_boxed(m).await;
                 }
-                let mut items = vec![];
                 while let Some(x) = st.next().await {
                     match x {
                         Ok(c) => items.push(Ok(c.as_str().to_string())),
